@@ -16,6 +16,8 @@ CONSTANTS
   RPass = {"p1"}
   MaxHist = 0
   MaxLines = 0
+  MaxConns = 2
+  MaxCItems = 0
 """
 
 MC = {
